@@ -29,7 +29,7 @@ Lemma Sx_asg : forall cpp o l ra ta ka rb tb kb,
   ka <= 13 -> kb <= 14 -> ender ra -> rb <> [] -> ra <> [] ->
   Sx cpp (ra ++ (l, TOp (OAsg o)) :: rb) (B (l, TOp (OAsg o)) ta tb) 14.
 Proof.
-  intros cpp o l ra ta ka rb tb kb IHa IHb Hka Hkb Hend Hrb Hra f d s rest out n Hrk Hd Hn Hlen Hop Hj Hnd Hq Hq14 Hc.
+  intros cpp o l ra ta ka rb tb kb IHa IHb Hka Hkb Hend Hrb Hra f d s rest out n Hrk Hd Hn Hlen Hop Hps Hj Hnd Hq Hq14 Hc.
   set (op := (l, TOp (OAsg o))) in *.
   rewrite app_length in Hn. cbn [length] in Hn.
   rewrite <- app_assoc in *. cbn [app] in *.
@@ -51,7 +51,8 @@ Proof.
       - lia.
       - cbn [length] in *. lia.
       - rewrite app_length. cbn [length] in *. lia.
-      - cbn. split; reflexivity.
+      - cbn. split; [reflexivity|discriminate].
+      - apply pstart_vac. reflexivity.
       - exact Hj.
       - unfold s1, sa, mkafter, set_asgn. cbn [bef stk depth asgn].
         assert (H := ND_app (ra ++ [op]) (bef s) (rb ++ rest)).
@@ -87,6 +88,7 @@ Proof.
   - cbn [length] in *. lia.
   - rewrite app_length. cbn [length]. rewrite app_length. lia.
   - exact Hop.
+  - apply (pstart_app_l _ ra (op :: rb) Hra). exact Hps.
   - reflexivity.
   - exact Hnd.
   - intros r a0 Hr. apply quiet_asgop; [apply ender_aft; exact Hend|lia].
@@ -108,7 +110,7 @@ Lemma Sx_comma : forall cpp l ra ta ka rb tb kb,
   ka <= 15 -> kb <= 14 -> rb <> [] -> ra <> [] ->
   Sx cpp (ra ++ (l, TComma) :: rb) (B (l, TComma) ta tb) 15.
 Proof.
-  intros cpp l ra ta ka rb tb kb IHa IHb Hka Hkb Hrb Hra f d s rest out n Hrk Hd Hn Hlen Hop Hj Hnd Hq Hq14 Hc.
+  intros cpp l ra ta ka rb tb kb IHa IHb Hka Hkb Hrb Hra f d s rest out n Hrk Hd Hn Hlen Hop Hps Hj Hnd Hq Hq14 Hc.
   set (op := (l, TComma)) in *.
   rewrite app_length in Hn. cbn [length] in Hn.
   rewrite <- app_assoc in *. cbn [app] in *.
@@ -128,7 +130,8 @@ Proof.
       - lia.
       - cbn [length] in *. lia.
       - rewrite app_length. cbn [length] in *. lia.
-      - cbn. split; reflexivity.
+      - cbn. split; [reflexivity|discriminate].
+      - apply pstart_vac. reflexivity.
       - exact Hj.
       - unfold s1, sa, mkafter. cbn [bef].
         assert (H := ND_app (ra ++ [op]) (bef s) (rb ++ rest)).
@@ -162,6 +165,7 @@ Proof.
   - cbn [length] in *. lia.
   - rewrite app_length. cbn [length]. rewrite app_length. lia.
   - exact Hop.
+  - apply (pstart_app_l _ ra (op :: rb) Hra). exact Hps.
   - reflexivity.
   - exact Hnd.
   - intros r a0 Hr. apply quiet_comma. lia.
